@@ -169,18 +169,53 @@ func (r *FnRun) execBlock(fr *Frame, st *State, b, pred *ssa.BasicBlock, k contF
 			if pred == nil || !l.body[pred] {
 				unsup("loop head re-entered from outside the loop")
 			}
+			r.checkInteriorStable(fr, st, l)
 			r.checkInvariants(fr, st, l, "INV-PRES")
 			r.endPath(st)
 			return
 		}
 		r.checkInvariants(fr, st, l, "INV-INIT")
+		keep := r.interiorCells(fr, st, l)
 		r.havocLoop(fr, st, l)
 		fr.seen[b] = 1
+		if len(keep) > 0 {
+			// explore the loop head twice: with the variables still holding the
+			// interior pointers they hold on entry, and with arbitrary objects
+			if fr.interior == nil {
+				fr.interior = map[*ssa.BasicBlock]map[*Cell]Val{}
+			}
+			fr.interior[b] = keep
+			st2, fr2 := st.clone(), fr.fork()
+			for c, v := range keep {
+				st2.cells[c] = v
+			}
+			r.push()
+			r.cur = st2
+			st2.path = append(st2.path, fmt.Sprintf("loop%d:first-object", l.ordinal))
+			r.assumeInvariants(fr2, st2, l)
+			r.execBlockBody(fr2, st2, b, pred, k)
+			r.pop()
+			r.push()
+			r.cur = st
+			st.path = append(st.path, fmt.Sprintf("loop%d:later-object", l.ordinal))
+			r.assumeInvariants(fr, st, l)
+			if r.e.covers {
+				r.cover(fmt.Sprintf("loop%d-reachable", l.ordinal), st)
+			}
+			r.execBlockBody(fr, st, b, pred, k)
+			r.pop()
+			return
+		}
 		r.assumeInvariants(fr, st, l)
 		if r.e.covers {
 			r.cover(fmt.Sprintf("loop%d-reachable", l.ordinal), st)
 		}
 	}
+	r.execBlockBody(fr, st, b, pred, k)
+}
+
+// execBlockBody: the phis and instructions of b (after any loop-head treatment).
+func (r *FnRun) execBlockBody(fr *Frame, st *State, b, pred *ssa.BasicBlock, k contFn) {
 	// phis are evaluated simultaneously
 	var phiVals []Val
 	var phis []*ssa.Phi
@@ -461,6 +496,7 @@ func (r *FnRun) execSimple(fr *Frame, st *State, in ssa.Instruction) {
 		r.mapUpdate(fr, st, x)
 	case *ssa.Range:
 		fr.vals[x] = r.val(fr, st, x.X)
+		r.rangeInit(fr, st, x)
 	case *ssa.Next:
 		fr.vals[x] = r.next(fr, st, x)
 	case *ssa.Select:
